@@ -15,6 +15,7 @@
 package main
 
 import (
+	"encoding/hex"
 	"encoding/json"
 	"fmt"
 	"os"
@@ -22,9 +23,12 @@ import (
 	"sort"
 	"strconv"
 	"strings"
+	"sync"
 	"time"
+	"unicode/utf8"
 
 	"github.com/dapr/kit/ttlcache"
+	"github.com/dapr/kit/verifhook"
 
 	"verifharness/lib"
 )
@@ -73,11 +77,140 @@ func showTime(t time.Time) string { return fmt.Sprintf("%d.%d", t.Unix(), t.Nano
 
 func showDump(c *ttlcache.Cache[int]) string {
 	d := c.VerifDump()
+	sort.SliceStable(d, func(i, j int) bool { return keyToken(d[i].Key) < keyToken(d[j].Key) }) // the model sorts by token
 	parts := make([]string, len(d))
 	for i, e := range d {
-		parts[i] = fmt.Sprintf("%s:%d:%s", e.Key, e.Val, showTime(e.Exp))
+		parts[i] = fmt.Sprintf("%s:%d:%s", keyToken(e.Key), e.Val, showTime(e.Exp))
 	}
 	return fmt.Sprintf("n=%d e=%s", c.VerifLen(), strings.Join(parts, ";"))
+}
+
+// ---------------------------------------------------------------------------------------------
+// key tokens. The protocol lines (and the Lean model, whose keys are abstract) carry key TOKENS:
+// printable words without blanks or `= : ; ,`. The real cache is driven with realKey(token), so a
+// case can use keys that cannot be written into a line: the empty string (the Go zero value), NUL,
+// invalid UTF-8, trailing blanks, very long keys. The mapping is injective on the tokens the
+// generators use, so model and implementation talk about the same finite map.
+//
+//	a, ab, A, w3 …        the token itself
+//	~                     "" (empty string)
+//	~x<hex>               the bytes <hex>
+//	~r<n>x<hex>[s<hex>]   the bytes <hex> repeated n times, then the optional suffix
+
+var tokOf sync.Map // real key -> token (for keys that have no canonical short token: the long ones)
+
+func realKey(tok string) string {
+	if !strings.HasPrefix(tok, "~") {
+		return tok
+	}
+	real, ok := func() (string, bool) {
+		body := tok[1:]
+		switch {
+		case body == "":
+			return "", true
+		case body[0] == 'x':
+			b, err := hex.DecodeString(body[1:])
+			return string(b), err == nil && len(b) > 0
+		case body[0] == 'r':
+			i := strings.IndexByte(body, 'x')
+			if i < 0 {
+				return "", false
+			}
+			n, err := strconv.Atoi(body[1:i])
+			rest, suffix := body[i+1:], ""
+			if j := strings.IndexByte(rest, 's'); j >= 0 {
+				rest, suffix = rest[:j], rest[j+1:]
+			}
+			b, err2 := hex.DecodeString(rest)
+			sfx, err3 := hex.DecodeString(suffix)
+			if err != nil || err2 != nil || err3 != nil || n < 1 || n > 1<<20 || len(b) == 0 {
+				return "", false
+			}
+			return strings.Repeat(string(b), n) + string(sfx), true
+		}
+		return "", false
+	}()
+	if !ok {
+		return tok // not a token of the scheme: the word itself is the key
+	}
+	if keyTokenCanonical(real) != tok {
+		tokOf.Store(real, tok)
+	}
+	return real
+}
+
+func plainKey(k string) bool {
+	if k == "" || len(k) > 48 {
+		return false
+	}
+	for i := 0; i < len(k); i++ {
+		c := k[i]
+		if !(c >= 'a' && c <= 'z' || c >= 'A' && c <= 'Z' || c >= '0' && c <= '9' || c == '_' || c == '-' || c == '.') {
+			return false
+		}
+	}
+	return true
+}
+
+func keyTokenCanonical(real string) string {
+	switch {
+	case real == "":
+		return "~"
+	case plainKey(real):
+		return real
+	}
+	return "~x" + hex.EncodeToString([]byte(real))
+}
+
+// keyToken is the inverse of realKey on the generators' alphabet (and total: any other key is hex).
+func keyToken(real string) string {
+	if t, ok := tokOf.Load(real); ok {
+		return t.(string)
+	}
+	return keyTokenCanonical(real)
+}
+
+func keyTokens(reals []string) []string {
+	out := make([]string, len(reals))
+	for i, k := range reals {
+		out[i] = keyToken(k)
+	}
+	sort.Strings(out)
+	return out
+}
+
+// unusualKeys: legal keys the usual a/b/c/d never exercise. Empty string = Go zero value; a single
+// NUL; bytes that are not UTF-8; a blank, a newline; keys differing only in case or by a trailing
+// blank; keys that are prefixes of one another (the empty key is a prefix of all); multi-byte
+// UTF-8; very long keys differing in the last byte / by one byte of length.
+var unusualKeys = []string{
+	"~", "~x00", "~x0000", "~xff", "~xc328", "~x20", "~x0a", "~x6120", "~x612020", "~x6100",
+	"a", "A", "ab", "abc", "aB", "~xe29c93", "~xf09f9880", "~x7e", "~x3d", "~x2c3a3b",
+	"~r4096x6b", "~r4097x6b", "~r4096x6bs00", "~r300x00", "~r70000x6162",
+}
+
+// pickKeySet: the keys one generated case works on. One third of the cases keep a/b/c/d; the
+// others draw from unusualKeys, the empty key being forced into half of those.
+func pickKeySet(r *lib.Rand, nk int) []string {
+	if r.Intn(3) == 0 {
+		return append([]string(nil), keys[:nk]...)
+	}
+	pool := append([]string(nil), unusualKeys...)
+	for i := len(pool) - 1; i > 0; i-- {
+		j := r.Intn(i + 1)
+		pool[i], pool[j] = pool[j], pool[i]
+	}
+	ks := pool[:nk]
+	if r.Intn(2) == 0 {
+		has := false
+		for _, k := range ks {
+			has = has || k == "~"
+		}
+		if !has {
+			ks[r.Intn(nk)] = "~"
+		}
+	}
+	return ks
 }
 
 // guarded runs f under recover and a deadline; a panic or hang in the real code becomes an outcome.
@@ -120,11 +253,12 @@ type monitor struct {
 	hits   int
 	misses int
 	sets   int
-	seq    bool // sequential family: no cleaner runs concurrently, so every miss of a live entry is a defect
+	seq    bool                 // sequential family: no cleaner runs concurrently, so every miss of a live entry is a defect
+	hist   map[string][]*setRec // every successful Set per key (the snapshot monitor needs more than the last one)
 }
 
 func newMonitor(maxTTL int64, res *lib.Result, c *Case) *monitor {
-	return &monitor{maxTTL: maxTTL, last: map[string]*setRec{}, res: res, c: c}
+	return &monitor{maxTTL: maxTTL, last: map[string]*setRec{}, hist: map[string][]*setRec{}, res: res, c: c}
 }
 
 func (m *monitor) effTTL(ttl int64) int64 {
@@ -144,6 +278,71 @@ func (m *monitor) onSet(k string, v int, ttl int64, now time.Time) {
 		m.res.Hit("monitor:ttl-beyond-overflow-bound(excluded)")
 	}
 	m.last[k] = r
+	m.hist[k] = append(m.hist[k], r)
+}
+
+// expiredBy: the entry stored by r carries an expiry strictly before now (what Cleanup may remove).
+func expiredBy(r *setRec, now time.Time) bool {
+	return r.unknown || int64(now.Sub(r.at)) > r.eff*nsPerSecond
+}
+
+// onCleanupSnapshot judges the key list a Cleanup hands to its bulk delete (observed at the
+// verifhook point between snapshot and delete; `now` is the cache clock at or after the Cleanup's own
+// clock reading — the clock never goes back). "Cleanup removes only entries that have expired": every
+// listed key must have held, at some time, an entry whose expiry lies before now. A key that was
+// never set, or whose every entry is still unexpired, has no business in that list — whatever is
+// stored under it when the bulk delete runs disappears although it is live and nobody touched it.
+// Computed from the harness's own op log and the fake clock only. If `stored` is given (sequential
+// use: the state right before the call) the demand is the exact one: the key is stored and that
+// entry's expiry is before now.
+func (m *monitor) onCleanupSnapshot(who string, snap []string, now time.Time, stored []ttlcache.VerifEntry[int]) {
+	var sm map[string]ttlcache.VerifEntry[int]
+	if stored != nil {
+		sm = map[string]ttlcache.VerifEntry[int]{}
+		for _, e := range stored {
+			sm[e.Key] = e
+		}
+	}
+	seen := map[string]bool{}
+	for _, k := range snap {
+		m.res.Hit("monitor:cleanup-snapshot-key-checked")
+		if seen[k] {
+			m.res.Hit("monitor:cleanup-snapshot-duplicate-key")
+		}
+		seen[k] = true
+		everExpired := false
+		for _, r := range m.hist[k] {
+			everExpired = everExpired || expiredBy(r, now)
+		}
+		switch {
+		case len(m.hist[k]) == 0:
+			m.res.Violate("cleanup-snapshot-holds-unexpired-key",
+				fmt.Sprintf("%s at %s hands %q (token %s) to its bulk delete although that key was never set: the list must hold expired entries only; a live entry stored under %q disappears at this cleanup (list: %q)", who, showTime(now), k, keyToken(k), k, shortKeys(snap)), m.c)
+		case !everExpired:
+			m.res.Violate("cleanup-snapshot-holds-unexpired-key",
+				fmt.Sprintf("%s at %s hands %q (token %s) to its bulk delete although no entry ever stored under it has expired (%d Sets; the last one: v=%d ttl %d s at %s)", who, showTime(now), k, keyToken(k), len(m.hist[k]), m.hist[k][len(m.hist[k])-1].val, m.hist[k][len(m.hist[k])-1].eff, showTime(m.hist[k][len(m.hist[k])-1].at)), m.c)
+		case sm != nil:
+			if e, ok := sm[k]; !ok || !e.Exp.Before(now) {
+				m.res.Violate("cleanup-snapshot-holds-unexpired-key",
+					fmt.Sprintf("sequential %s at %s hands %q (token %s) to its bulk delete; stored=%v exp=%s: not an expired stored entry", who, showTime(now), k, keyToken(k), ok, showTime(e.Exp)), m.c)
+			}
+		}
+	}
+}
+
+func shortKeys(ks []string) []string {
+	out := make([]string, 0, len(ks))
+	for i, k := range ks {
+		if i == 12 {
+			out = append(out, fmt.Sprintf("… %d more", len(ks)-i))
+			break
+		}
+		if len(k) > 24 {
+			k = k[:24] + "…"
+		}
+		out = append(out, k)
+	}
+	return out
 }
 func (m *monitor) onDelete(k string) { delete(m.last, k) }
 func (m *monitor) onReset()          { m.last = map[string]*setRec{} }
@@ -274,13 +473,16 @@ func (x *seqExec) exec(line string) string {
 				return "error"
 			}
 			now := x.clk.Now()
-			x.c.Set(kv["k"], int(v), ttl) // ttl <= 0 panics (documented misuse) -> "panic"
-			x.mon.onSet(kv["k"], int(v), ttl, now)
+			k := realKey(kv["k"])
+			x.c.Set(k, int(v), ttl) // ttl <= 0 panics (documented misuse) -> "panic"
+			x.mon.onSet(k, int(v), ttl, now)
 			x.res.Hit("op:set")
+			hitKeyClass(x.res, k)
 			return "ok"
 		case "get":
-			v, ok := x.c.Get(kv["k"])
-			x.mon.onGet(kv["k"], ok, v, x.clk.Now())
+			k := realKey(kv["k"])
+			v, ok := x.c.Get(k)
+			x.mon.onGet(k, ok, v, x.clk.Now())
 			if ok {
 				x.res.Hit("op:get-hit")
 				return "hit v=" + strconv.Itoa(v)
@@ -288,14 +490,18 @@ func (x *seqExec) exec(line string) string {
 			x.res.Hit("op:get-miss")
 			return "miss"
 		case "del":
-			x.c.Delete(kv["k"])
-			x.mon.onDelete(kv["k"])
+			x.c.Delete(realKey(kv["k"]))
+			x.mon.onDelete(realKey(kv["k"]))
 			x.res.Hit("op:delete")
 			return "ok"
 		case "cleanup":
 			before := x.c.VerifDump()
-			x.c.Cleanup()
-			x.mon.onCleanupDiff(before, x.c.VerifDump(), x.clk.Now())
+			snap, seen := x.observeSnapshot(func() { x.c.Cleanup() })
+			now := x.clk.Now()
+			if seen {
+				x.mon.onCleanupSnapshot("Cleanup", snap, now, before)
+			}
+			x.mon.onCleanupDiff(before, x.c.VerifDump(), now)
 			x.res.Hit("op:cleanup")
 			return "ok"
 		case "reset":
@@ -319,6 +525,42 @@ func (x *seqExec) exec(line string) string {
 		}
 		return "error"
 	})
+}
+
+// observeSnapshot runs f (a Cleanup) with a verifhook callback that records the key list the
+// cache is about to bulk-delete.
+func (x *seqExec) observeSnapshot(f func()) (snap []string, seen bool) {
+	verifhook.Set(func(name string, args ...any) {
+		if name != "ttlcache.cleanup.afterSnapshot" || len(args) < 2 {
+			return
+		}
+		if c, ok := args[0].(*ttlcache.Cache[int]); !ok || c != x.c {
+			return
+		}
+		ks, _ := args[1].([]string)
+		snap, seen = append([]string(nil), ks...), true
+	})
+	defer verifhook.Set(nil)
+	f()
+	return snap, seen
+}
+
+// hitKeyClass records which kind of key a Set used (distribution).
+func hitKeyClass(res *lib.Result, k string) {
+	switch {
+	case k == "":
+		res.Hit("key:empty-string")
+	case strings.IndexByte(k, 0) >= 0:
+		res.Hit("key:contains-NUL")
+	case len(k) > 1000:
+		res.Hit("key:long(>1000 bytes)")
+	case !utf8.ValidString(k):
+		res.Hit("key:invalid-utf8")
+	case !plainKey(k):
+		res.Hit("key:blank/punctuation/multibyte")
+	default:
+		res.Hit("key:plain")
+	}
 }
 
 func (x *seqExec) close() {
@@ -423,6 +665,7 @@ func genSeq(r *lib.Rand, res *lib.Result, n int) (*Case, []string, *monitor) {
 	curMon = x.mon
 	defer func() { curMon = nil }()
 	nk := r.Range(1, len(keys))
+	ks := pickKeySet(r, nk)
 	var outs []string
 	emit := func(l string) {
 		cs.Lines = append(cs.Lines, l)
@@ -436,7 +679,7 @@ func genSeq(r *lib.Rand, res *lib.Result, n int) (*Case, []string, *monitor) {
 	}
 	val := 0
 	for i := 0; i < n; i++ {
-		k := keys[r.Intn(nk)]
+		k := ks[r.Intn(nk)]
 		switch p := r.Intn(100); {
 		case p < 30:
 			val++
@@ -453,7 +696,7 @@ func genSeq(r *lib.Rand, res *lib.Result, n int) (*Case, []string, *monitor) {
 			emit("dump")
 		default:
 			emit(fmt.Sprintf("adv d=%d", pickAdvance(r, x.c, x.clk.Now(), res)))
-			for _, kk := range keys[:nk] {
+			for _, kk := range ks {
 				emit("get k=" + kk)
 			}
 		}
@@ -544,7 +787,58 @@ func boundaryCases() []*Case {
 	return out
 }
 
+// unusual keys, sequential (always run): per key K a live entry next to an expired plain one through
+// Cleanup (kept, still served), the exp == now boundary, expiry and Reset; plus one history holding
+// ALL unusual keys at once (prefixes of one another, case / trailing-blank twins, the two long
+// keys) where each must keep its own value through a Cleanup that removes one expired neighbour.
+func unusualKeySeqCases() []*Case {
+	var out []*Case
+	adv := func(ns int64) string { return fmt.Sprintf("adv d=%d", ns) }
+	for _, mx := range []int64{0, 5} {
+		for _, K := range unusualKeys {
+			g := "get k=" + K
+			out = append(out, &Case{Mode: "seq", Lines: []string{
+				fmt.Sprintf("new max=%d t0=%d", mx, t0.UnixNano()),
+				"cleanup", "dump", // Cleanup of an empty cache
+				"set k=" + K + " v=7 ttl=4", "cleanup", g, "set k=zz v=1 ttl=1", adv(2 * nsPerSecond), "cleanup", "dump", g, "get k=zz",
+				adv(2*nsPerSecond - 1), "cleanup", g, adv(1), g, "cleanup", "dump", adv(1), "cleanup", "dump", g,
+				"set k=" + K + " v=8 ttl=3", "cleanup", g, "del k=" + K, g, "set k=" + K + " v=9 ttl=3", "reset", g, "dump"}})
+		}
+	}
+	all := &Case{Mode: "seq", Lines: []string{fmt.Sprintf("new max=0 t0=%d", t0.UnixNano())}}
+	for i, K := range unusualKeys {
+		all.Lines = append(all.Lines, fmt.Sprintf("set k=%s v=%d ttl=%d", K, 100+i, 50+i))
+	}
+	all.Lines = append(all.Lines, "set k=zz v=1 ttl=1", adv(2*nsPerSecond), "cleanup", "dump")
+	for _, K := range unusualKeys {
+		all.Lines = append(all.Lines, "get k="+K)
+	}
+	all.Lines = append(all.Lines, "del k=~", "cleanup", "dump", "get k=~", "get k=~x00", adv(60*nsPerSecond), "cleanup", "dump", adv(60*nsPerSecond), "cleanup", "dump")
+	// every key deleted in turn: exactly that key misses, every other key keeps its own value
+	// (a Delete / Cleanup / lookup that normalises, truncates or prefix-matches keys shows here)
+	each := &Case{Mode: "seq", Lines: []string{fmt.Sprintf("new max=0 t0=%d", t0.UnixNano())}}
+	for i, K := range unusualKeys {
+		each.Lines = append(each.Lines, fmt.Sprintf("set k=%s v=%d ttl=%d", K, 100+i, 500+i))
+	}
+	for i, K := range unusualKeys {
+		each.Lines = append(each.Lines, "del k="+K, "cleanup")
+		for _, K2 := range unusualKeys {
+			each.Lines = append(each.Lines, "get k="+K2)
+		}
+		each.Lines = append(each.Lines, fmt.Sprintf("set k=%s v=%d ttl=%d", K, 200+i, 500+i), adv(nsPerSecond/2))
+	}
+	each.Lines = append(each.Lines, "dump")
+	return append(out, all, each)
+}
+
 func runSeq(f lib.Flags, res *lib.Result, drv *lib.Drv, r *lib.Rand) {
+	for _, cs := range unusualKeySeqCases() {
+		outs := runSeqLines(cs, res) // judged by the reference monitor (onGet / onCleanupSnapshot / onCleanupDiff)
+		diff(drv, res, "seq: kitdrv C15 (KitModel.TTLCache.step) vs ttlcache.Cache under VerifClock", cs, outs)
+		res.Count(strings.Join(cs.Lines, "|"), true)
+		res.Hit("family:unusual-key-sequential")
+		res.Traces++
+	}
 	for _, cs := range boundaryCases() {
 		outs := runSeqLines(cs, res)
 		want := []string{"ok", "ok", "ok", "hit v=7", "ok", "", "ok", "miss", "ok", "", "ok", "miss", "ok", "n=0 e="}
